@@ -76,9 +76,68 @@ def run(ctx):
     ctx.count("walk_model_cases", len(wm))
     ctx.correspond("walk_model", wm, nontrivial=nt)
 
+    probes(ctx)
+
     # scalar level of both formats against the extracted Serde model
     from props import descalar
     ctx.correspond("scalar-both", descalar.text_cases(ctx, ctx.scale(100, 1000)) + descalar.bin_cases(ctx, ctx.scale(60, 600)), nontrivial=nt)
+
+
+def probes(ctx):
+    """the witnesses of Props/C10_link.v replayed on the implementation (and, through the walk models, on the
+    extracted deserializers): a colour captured as (String, Vec<u8>) -- C10_link_rgb_typed_agree, incl. the
+    out-of-range refusal --, a colour into an `any` target -- C10_link_rgb_any_refuted --, and the smallest
+    i64 -- C10_link_i64_min_refuted --, each through the text slice path and the three binary paths"""
+    import struct
+    from props import C02
+    nt = lambda c, i: i.startswith("(")
+    col, x = hx("color"), hx("x")
+    bpaths = ["tape", "slice", "reader:64:-", "reader:32768:1*"]
+
+    def rgb_bin(c):
+        return D.bstr(b"color", False) + D.EQ + D.tok(0x0243) + D.OPEN + b"".join(D.tok(0x14) + struct.pack("<I", v) for v in c) + D.CLOSE
+
+    groups = []          # (name, text, binary bytes, shape, what is expected of the group)
+    for c in ([1, 2, 3], [110, 27, 255, 0], [0, 0, 0], [255, 255, 255, 255]):
+        groups.append(("rgb-typed", ("color = rgb { %s }" % " ".join(map(str, c))).encode(), rgb_bin(c),
+                       "struct(%s:tup(str,seq(u8)))" % col, "equal-value"))
+    groups.append(("rgb-typed", b"color = rgb { 1 300 3 }", rgb_bin([1, 300, 3]), "struct(%s:tup(str,seq(u8)))" % col, "equal-error"))
+    groups.append(("rgb-typed", b"color=rgb{70000 2 3 4}", rgb_bin([70000, 2, 3, 4]), "struct(%s:tup(str,seq(u32)))" % col, "equal-value"))
+    groups.append(("rgb-any", b"color = rgb { 1 2 3 }", rgb_bin([1, 2, 3]), "struct(%s:any)" % col, "differ-by-design"))
+    # dates at the calendar boundaries (Props/C10_link.v C10_link_date, all -5000 <= y <= 32767 and calendar days)
+    for (y, m, d) in [(1444, 11, 11), (1, 1, 1), (1, 12, 31), (9999, 12, 31), (1600, 2, 28), (1600, 3, 1), (-1, 1, 1), (-4999, 6, 30),
+                      (32767, 12, 31), (2200, 1, 31), (1836, 4, 30), (5, 7, 31), (1066, 10, 14)]:
+        for pad in (False, True):
+            t = ("%d.%02d.%02d" if pad else "%d.%d.%d") % (y, m, d)
+            groups.append(("date", b"x=" + t.encode(), D.bstr(b"x", False) + D.EQ + D.tok(0x0c) + struct.pack("<i", D.date_to_binary(y, m, d)),
+                           "struct(%s:date)" % x, "equal-value"))
+    imin = -2 ** 63
+    groups.append(("i64-min", b"x=%d" % imin, D.bstr(b"x", False) + D.EQ + D.tok(0x317) + struct.pack("<q", imin), "struct(%s:i64)" % x, "finding"))
+    groups.append(("i64-min", b"x=%d" % (imin + 1), D.bstr(b"x", False) + D.EQ + D.tok(0x317) + struct.pack("<q", imin + 1), "struct(%s:i64)" % x, "equal-value"))
+    cases = []
+    for (_, txt, b, shs, _) in groups:
+        cases.append("\t".join(["de.text", "slice", "utf8", shs, hx(txt)]))
+        for p in bpaths:
+            cases.append("\t".join(["de.bin", p, "error", "map:-", "raw", shs, hx(b)]))
+    impl, _ = ctx.correspond("probes", cases, nontrivial=nt, model=False)
+    base = len(impl) - len(cases)
+    k = 1 + len(bpaths)
+    for gi, (name, txt, b, shs, want) in enumerate(groups):
+        outs = impl[base + gi * k: base + (gi + 1) * k]
+        gc = cases[gi * k: (gi + 1) * k]
+        ctx.count("probe_" + name)
+        bin_equal = all(o == outs[1] for o in outs[1:])
+        if not bin_equal:
+            ctx.fail("probe-bin-paths", "%s: the binary paths disagree: %s" % (name, outs[1:]), gc, outs, None)
+        elif want == "equal-value" and not (outs[0] == outs[1] and outs[0].startswith("(")):
+            ctx.fail("probe-" + name, "text gives %s, binary gives %s" % (outs[0][:120], outs[1][:120]), gc, outs, "equal values")
+        elif want == "equal-error" and not (outs[0] == outs[1] and outs[0].startswith("ERR")):
+            ctx.fail("probe-" + name, "text gives %s, binary gives %s" % (outs[0][:120], outs[1][:120]), gc, outs, "the same refusal")
+        elif want == "finding" and outs[0] != outs[1]:
+            ctx.fail("text-bin-i64min", "x=%d: text gives %s, binary (I64 token) gives %s" % (imin, outs[0][:80], outs[1][:80]), gc, outs, "equal values")
+    # the same cases against the extracted walks (text: over the implementation's tape; binary: from the bytes)
+    C02.walk_model(ctx, [c for c in cases if c.startswith("de.text\t")], stream="probes_walk_text")
+    ctx.correspond("probes_walk_bin", ["de.model.bin" + c[len("de.bin"):] for c in cases if c.startswith("de.bin\t")], nontrivial=nt)
 
 
 def search(ctx):
@@ -94,6 +153,6 @@ def search(ctx):
 
 CLAIM = {
     "text": "one logical document is rendered as text and as binary and deserialized into the same runtime shape through the text slice/reader paths and the three binary paths; all results must be equal and equal to the independently computed value; Coq: see coverage.theorems",
-    "note": "Props/C10_walk.v: the binary specification is independent of the encoding choices (integer token, string form incl. resolvable ids, ghosts) and every binary path on every encoding returns it; the text half of text_bin_agree is NOT proved (two specifications, no common logical document yet). Earlier note: The Coq side pins the shared value specification (Serde.spec_value is format independent on shared documents) and the date codec agreement imported from C13; the two deserializers themselves are tied by the oracle stream only.",
+    "note": "Props/C10_link.v (LogicDoc.v: logical documents with a text rendering to_text and a binary rendering to_bin under an encoding choice e): (1) per-scalar agreement of the text typed hints and the binary tokens for integers in (i64::MIN, u64::MAX] on all four token widths and every target width (refusals included), yes/no vs BOOL, strings as quoted / unquoted / resolvable id, dates Y.M.D vs I32 (through C13), floats under float_ok; (2) C10_spec_agree: TextDeSpec.spec_value on to_text d = BinDoc.spec_value on to_bin e d for every shared shape and every admissible encoding choice (nested objects, arrays, duplicate keys, Option, unknown fields, Once/Last/Collect, maps, tuples, enums); (3) C10_text_bin_agree_partial: composed with the C02 and C04 walk theorems, the text tape and stream paths and the three binary paths (any fitting capacity, any fault-free schedule) return the same value; (4) C10_link_rgb_typed_agree: a colour captured as (String, Vec<uN>) is read identically by the text tape path and the binary paths for all channel values, C10_link_rgb_any_refuted / C10_link_i64_min_refuted: the two witnesses replayed by the `probes` stream. C10_shared_fits: a shared target fits the text rendering; C10_text_bytes_bin_agree_partial: the same from the text bytes under every layout (through C01_parse_render). Not proved: colours at arbitrary positions of a document (TextDeSpec has no headers), the byte-level lexing of the text STREAM path (C07) is not composed. Props/C10_walk.v: the binary specification is independent of the encoding choices and every binary path on every encoding returns it. Props/C10.v: the old Serde.v-level scalar agreement.",
     "technique": "machine-checked proof in Coq over an executable model + specification oracle on the implementation",
 }
